@@ -4,8 +4,11 @@
 package c05
 
 import (
+	"bytes"
 	"context"
 	"errors"
+	"sync"
+	"time"
 	"encoding/binary"
 	"fmt"
 
@@ -128,6 +131,8 @@ type rig struct {
 	calls     []kit.Call
 	// fault injection, see top.Before
 	failPLogWrite bool
+	holdMu        sync.Mutex
+	holds         []*hold
 
 	// the second node: another app-structs instance on the SAME backend with its own istoragecache (cached
 	// backend) and its own PLog cache - another writer on the shared storage, underneath the first node's caches
@@ -211,9 +216,34 @@ func newRig(backend string, trust int) (*rig, error) {
 			r.failPLogWrite = false
 			return kit.Verdict{FailBefore: errInjected}
 		}
+		if c.Op == "Put" || c.Op == "InsertIfNotExists" {
+			r.holdMu.Lock()
+			var mine *hold
+			for _, h := range r.holds {
+				if h.taken == nil && bytes.Equal(h.pk, c.PKey) && bytes.Equal(h.cc, c.CCols) {
+					h.taken, mine = c, h
+					break
+				}
+			}
+			r.holdMu.Unlock()
+			if mine != nil {
+				close(mine.arrived)
+				<-mine.release
+			}
+		}
 		return kit.Verdict{}
 	}
 	r.top.After = func(c *kit.Call) {
+		r.holdMu.Lock()
+		for _, h := range r.holds {
+			if h.taken == c {
+				cp := *c
+				h.call = &cp
+				r.holdMu.Unlock()
+				return
+			}
+		}
+		r.holdMu.Unlock()
 		if r.recording {
 			r.calls = append(r.calls, *c)
 		}
@@ -239,11 +269,63 @@ func (r *rig) restart() error {
 
 // record runs f with call recording on and returns the IAppStorage calls istructsmem made
 func (r *rig) record(f func()) []kit.Call {
-	r.calls = nil
-	r.recording = true
-	defer func() { r.recording = false }()
+	// re-entrant: a step may run other steps while one of its storage calls is held
+	saved, savedRec := r.calls, r.recording
+	r.calls, r.recording = nil, true
+	defer func() { r.calls, r.recording = saved, savedRec }()
 	f()
 	return r.calls
+}
+
+// hold: one storage write (by key) that the wrapper keeps at its entry until it is released - the write of a
+// re-applier of one partition, while other partitions of the application go on
+type hold struct {
+	name     string
+	pk, cc   []byte
+	arrived  chan struct{}
+	release  chan struct{}
+	released bool
+	taken    *kit.Call // the held call (set by the Before hook, in the goroutine that made it)
+	call     *kit.Call // ... and the same call with its result (After hook)
+	done     chan error
+	result   error
+	finished bool
+}
+
+func (r *rig) newHold(name string, pk, cc []byte) *hold {
+	h := &hold{name: name, pk: pk, cc: cc, arrived: make(chan struct{}), release: make(chan struct{}), done: make(chan error, 1)}
+	r.holdMu.Lock()
+	r.holds = append(r.holds, h)
+	r.holdMu.Unlock()
+	return h
+}
+
+func (r *rig) holdByName(name string) *hold {
+	r.holdMu.Lock()
+	defer r.holdMu.Unlock()
+	for _, h := range r.holds {
+		if h.name == name {
+			return h
+		}
+	}
+	return nil
+}
+
+// letGo releases the held call (once) and waits for the operation that made it to return
+func (h *hold) letGo() error {
+	if !h.released {
+		h.released = true
+		close(h.release)
+	}
+	if !h.finished {
+		select {
+		case h.result = <-h.done:
+		case <-time.After(10 * time.Second):
+			h.result = errors.New("held operation did not return within 10s")
+		}
+		h.finished = true
+	}
+	return h.result
 }
 
 // ---- storage keys, as pkg/istructsmem/utils.go builds them (cross-checked on every run against
